@@ -905,6 +905,7 @@ fn main() {
             if let Some(v) = o.strip_prefix("drain:") { n.drain.push(v.to_string()); }
         }
         let mut canary: Option<String> = None;
+        let mut audit: Option<Vec<String>> = None;
         let mut fn_attrs_done = false;
         let (printed, span, nloops, nrets) = match found {
             Found::Other(mut it) => {
@@ -1023,6 +1024,7 @@ fn main() {
             }
             Found::Fn(mut f) => {
                 let sp = span_lines(f.span());
+                let src_block = (*f.block).clone();
                 f.attrs.clear();
                 if !d.attrs.trim().is_empty() {
                     if let Ok(a) = syn::parse::Parser::parse_str(syn::Attribute::parse_outer, &d.attrs) { f.attrs = a; fn_attrs_done = true; }
@@ -1054,6 +1056,7 @@ fn main() {
                 { let k = inst_asref(&mut f.sig, &mut f.block); if k > 0 { n.rules.push(norm::RuleApp { rule: "N27".into(), line: sp.0, note: format!("{k} AsRef<T> type parameter(s) instantiated at &T") }); } }
                 if emit_canaries { canary = canary_for(&f.sig, &d.header, None); }
                 n.run_fn(&mut f.sig, &mut f.block, d.ret.is_some());
+                if !d.opts.iter().any(|o| o == "contract-only") && d.lift.is_none() { audit = Some(token_audit(&src_block, &f.block, &n.rules, &d.effects)); }
                 let mut items: Vec<syn::Item> = std::mem::take(&mut n.hoisted);
                 items.push(syn::Item::Fn(f));
                 let file = syn::File { shebang: None, attrs: vec![], items };
@@ -1061,6 +1064,7 @@ fn main() {
             }
             Found::Method { mut imp, mut f } => {
                 let sp = span_lines(f.span());
+                let src_block = f.block.clone();
                 f.attrs.clear();
                 if !d.attrs.trim().is_empty() {
                     if let Ok(a) = syn::parse::Parser::parse_str(syn::Attribute::parse_outer, &d.attrs) { f.attrs = a; fn_attrs_done = true; }
@@ -1137,6 +1141,7 @@ fn main() {
                 if let Some((w, ty)) = &d.effect_param { norm::thread_effects(&mut f.sig, &mut f.block, w, ty, &d.effects, &mut n); }
                 if emit_canaries { canary = canary_for(&f.sig, &d.header, Some(&imp)); }
                 n.run_fn(&mut f.sig, &mut f.block, d.ret.is_some());
+                if !d.opts.iter().any(|o| o == "contract-only") { audit = Some(token_audit(&src_block, &f.block, &n.rules, &d.effects)); }
                 imp.attrs.clear();
                 if imp.trait_.is_some() {
                     // N12: trait-impl method emitted as an inherent method of the same type
@@ -1223,6 +1228,7 @@ fn main() {
             "dropped": n.dropped,
             "template_line": d.line,
             "canary_lines": canary_lines.map(|(a, b)| vec![a, b]),
+            "audit_missing": audit,
         }));
     }
     let report = json!({"template": args[1], "items": items_report, "includes": includes, "problems": problems});
@@ -1263,4 +1269,76 @@ fn bracket_delta(l: &str) -> i64 {
         i += 1;
     }
     d
+}
+
+/// Translation validation, lightweight (DESIGN §3.2): every comparison / arithmetic / logical operator, every integer literal and every
+/// call or method name of the SOURCE body must still occur in the normalised body at least as often — except the method names the
+/// normaliser's rules consume by definition (iterator adapters, error-context wrappers, ...). Macro bodies are token streams to syn
+/// and are skipped on both sides (the normaliser only ever moves their conditions OUT into code). Returns the missing items.
+fn token_audit(src: &syn::Block, out: &syn::Block, rules: &[norm::RuleApp], effects: &[(String, String, String)]) -> Vec<String> {
+    use syn::visit::Visit;
+    #[derive(Default)]
+    struct Col(BTreeMap<String, i64>);
+    impl<'a> Visit<'a> for Col {
+        fn visit_expr_binary(&mut self, b: &'a syn::ExprBinary) {
+            let op = quote::ToTokens::to_token_stream(&b.op).to_string();
+            *self.0.entry(format!("op {op}")).or_default() += 1;
+            syn::visit::visit_expr_binary(self, b);
+        }
+        fn visit_expr_unary(&mut self, u: &'a syn::ExprUnary) {
+            if matches!(u.op, syn::UnOp::Not(_) | syn::UnOp::Neg(_)) { *self.0.entry(format!("unop {}", quote::ToTokens::to_token_stream(&u.op))).or_default() += 1; }
+            syn::visit::visit_expr_unary(self, u);
+        }
+        fn visit_lit_int(&mut self, l: &'a syn::LitInt) {
+            if let Ok(v) = l.base10_parse::<u128>() { *self.0.entry(format!("int {v}")).or_default() += 1; }
+        }
+        fn visit_expr_method_call(&mut self, m: &'a syn::ExprMethodCall) {
+            *self.0.entry(format!("call {}", m.method)).or_default() += 1;
+            syn::visit::visit_expr_method_call(self, m);
+        }
+        fn visit_expr_call(&mut self, c: &'a syn::ExprCall) {
+            if let syn::Expr::Path(p) = &*c.func { if let Some(l) = p.path.segments.last() { *self.0.entry(format!("call {}", l.ident)).or_default() += 1; } }
+            syn::visit::visit_expr_call(self, c);
+        }
+    }
+    // consumed by a rule (closed list; each is replaced by an explicit loop, a match, or a model function of the same meaning)
+    const CONSUMED: &[&str] = &["iter", "iter_mut", "into_iter", "enumerate", "zip", "map", "collect", "sum", "fold", "all", "any", "position", "max", "filter",
+        "filter_map", "rev", "take", "skip", "copied", "cloned", "flatten", "chunks", "chunks_exact", "values", "keys", "context", "with_context", "map_err", "ok_or_else",
+        "ok_or", "retain", "entry", "or_default", "unwrap_or_default", "unwrap_or_else", "unwrap_or", "extend", "count", "chars", "from", "from_utf8", "from_le_bytes",
+        "to_le_bytes", "try_into", "into", "as_ref", "as_slice", "to_vec", "debug_struct", "field", "finish", "add_many", "mul_many", "copy_from_slice", "display",
+        "is_some_and", "from_fn", "Ok", "Err", "Some", "then", "then_some", "and_then", "ok", "len", "iter_mut", "expect", "chain", "once", "or_insert", "try_from"];
+    // names of closures bound by `let name = |..| ..` in the source: calls of them are inlined / lifted by the normaliser
+    #[derive(Default)]
+    struct Clos(Vec<String>);
+    impl<'a> Visit<'a> for Clos {
+        fn visit_local(&mut self, l: &'a syn::Local) {
+            if let (syn::Pat::Ident(pi), Some(init)) = (&l.pat, &l.init) { if matches!(&*init.expr, syn::Expr::Closure(_)) { self.0.push(pi.ident.to_string()); } }
+            syn::visit::visit_local(self, l);
+        }
+    }
+    let mut cl = Clos::default();
+    cl.visit_block(src);
+    let has = |r: &str| rules.iter().any(|x| x.rule == r);
+    let effect_names: Vec<String> = effects.iter().map(|e| e.1.rsplit("::").next().unwrap_or("").to_string()).collect();
+    let (mut a, mut b) = (Col::default(), Col::default());
+    a.visit_block(src);
+    b.visit_block(out);
+    let mut missing = vec![];
+    for (k, n) in &a.0 {
+        let mut m = b.0.get(k).copied().unwrap_or(0);
+        if let Some(name) = k.strip_prefix("call ") {
+            if CONSUMED.contains(&name) || cl.0.iter().any(|c| c == name) || effect_names.iter().any(|e| e == name) { continue; }
+            // a std call renamed to the unit's model function of the same name (vfs_metadata, vsort, vtry_from, ...)
+            for pre in ["v", "vfs_", "v_"] { m += b.0.get(&format!("call {pre}{name}")).copied().unwrap_or(0); }
+        }
+        // N23 folds literal shifts (`1 << 32`), N10 drops statements under a cfg that is off, N12 hoists a function-local datatype (its array
+        // lengths leave the body), an effect `pass` with a drop index removes an injected-effect closure argument: their tokens legitimately vanish
+        if has("N23") && (k == "op <<" || k.starts_with("int ")) { continue; }
+        if has("N12") && k.starts_with("int ") { continue; }
+        if has("N21") && (k == "op ==" || k == "op !=") { continue; }   // N21c: a comparison of range-indexed places becomes a vslice_eq call
+        if k.starts_with("call ") && effects.iter().any(|e| e.0 == "pass" && e.2.parse::<usize>().is_ok()) { continue; }
+        if has("N10") { continue; }
+        if m < *n { missing.push(format!("{k} x{}", n - m)); }
+    }
+    missing
 }
